@@ -92,7 +92,7 @@ CLAIMED = {
  'C19': dict(
    technique='runtime monitoring: online reference-model monitor over call records of seeded random histories (generic driver, hostile peer, small alphabets), every call under catch_unwind in the overflow-checks build',
    level='exploration',
-   text='Every event list of every history (hostile, timer, store and QoS 2 focused drivers): no RequestClose before a RequestSendPacket (K1), every DISCONNECT sent and every failing CONNACK accompanied by a close in the same list (K2), keep-alive timeout expiry on an established connection results in a close (K3).',
+   text='Every event list of every history (hostile, timer, store and QoS 2 focused drivers): no RequestClose before a RequestSendPacket (K1), every DISCONNECT sent and every failing CONNACK accompanied by a close in the same list (K2), keep-alive timeout expiry on an established connection results in a close (K3). Directed: an oversize DISCONNECT of the application is refused under seven peer limits, then a keep-alive expiry / a DISCONNECT that fits / more traffic (K4).',
    note='Trusted: the reference model of DESIGN Appendix F (written from the property statements, updated only from calls, returned events and public probes) and the application contract of DESIGN §3.3. The hook digest is only used to read the in-use id set faster; the same clause is re-checked black-box by register()/release() probing on a sample of calls.',
    design='DESIGN.md §4 + Appendix F'),
  'C02': dict(
